@@ -129,9 +129,8 @@ theorem andThen_frozen_same (s : HG) (r : HG × Outcome) (f : HG → HG × Outco
 
 theorem lcc_frozen_same (s t : HG) (hf : s.frozen = true) (hs : SameStruct s t) : SameStruct s (lccInPlace t).1 := by
   have hf' : t.frozen = true := by rw [hs.2.2.2.2.2.2]; exact hf
-  unfold lccInPlace; split
-  · exact hs
-  · simp only [guardF_frozen t _ hf']; exact hs
+  unfold lccInPlace
+  simp only [guardF_frozen t _ hf']; exact hs
 
 theorem relabel_frozen_same (s t : HG) (hf : s.frozen = true) (hs : SameStruct s t) (l : String) :
     SameStruct s (relabel t l).1 := by
